@@ -34,7 +34,7 @@ MANIFEST = {
 
 FORMATS = ["srt", "webvtt", "dfxp", "sami", "microdvd"]
 POINTS = [0, 1000500, 2040000, 3999999, 5000000, 5001000, 8040000, 10000001, 3600000000, 86390000999]
-TOKENS = ["word", "two words", "&", "<", "x > y", "a -->", "&amp;", "\u00e9", "it's", '"q"']
+TOKENS = ["word", "two words", "&", "<", "x > y", "a -->", "&amp;", "\u00e9", "it's", '"q"', "&gt;&gt; NARRATOR", "a &lt; b", "a&nbsp;b", "&#65;"]
 
 
 def bounds(tier):
